@@ -1,7 +1,176 @@
 (* Dispatcher of the model area: CaselessDict / canonical ordering (C17).
-   [dispatch_dict f a] = Some result when [f] names a function of this area.  Definitions only. *)
-Require Import Lib.Base.
+   [dispatch_dict f a] = Some result when [f] names a function of this area.  Definitions only.
+
+   Wire format (values are integers):
+     key   = ( i0|i1  s<text> )           0 = str, 1 = bytes
+     items = ( ( key i<v> ) ... )         raw items: ( ( s<key> i<v> ) ... )
+     op    = ( s<name> arg ... )
+     c17_trace ops  ->  ( ( out ref_out ok state ref_state ) ... )   one entry per operation, from the empty dict:
+                        the model's result, the reference's result on the same (model) state, the
+                        guard op_ok, the model's state after the operation *)
+Require Import Lib.Base Model.Params Model.Sort Model.Caseless.
 From Coq Require Import String.
 Local Open Scope string_scope.
 
-Definition dispatch_dict (f : list N) (a : jv) : option jv := None.
+Definition isd (f : list N) (name : string) : bool := str_eqb f (s2l name).
+
+Definition key_of (v : jv) : option key :=
+  match v with
+  | JL [JZ b; JS s] => Some (if (b =? 0)%Z then KStr s else KBytes s)
+  | _ => None
+  end.
+
+Fixpoint keys_of (l : list jv) : option (list key) :=
+  match l with
+  | [] => Some []
+  | k :: r => match key_of k, keys_of r with
+              | Some k', Some r' => Some (k' :: r')
+              | _, _ => None
+              end
+  end.
+
+Fixpoint kdict_of (l : list jv) : option (list (key * Z)) :=
+  match l with
+  | [] => Some []
+  | JL [k; JZ v] :: r => match key_of k, kdict_of r with
+                         | Some k', Some r' => Some ((k', v) :: r')
+                         | _, _ => None
+                         end
+  | _ => None
+  end.
+
+Fixpoint rawdict_of (l : list jv) : option (list (list N * Z)) :=
+  match l with
+  | [] => Some []
+  | JL [JS k; JZ v] :: r => match rawdict_of r with
+                            | Some r' => Some ((k, v) :: r')
+                            | None => None
+                            end
+  | _ => None
+  end.
+
+Definition optz_of (v : jv) : option (option Z) :=
+  match v with
+  | JL [] => Some None
+  | JL [JZ z] => Some (Some z)
+  | _ => None
+  end.
+
+Definition op_of (v : jv) : option (op Z) :=
+  match v with
+  | JL (JS name :: args) =>
+      if isd name "init" then match args with [JL ps] => option_map OInit (kdict_of ps) | _ => None end
+      else if isd name "fromkeys" then
+        match args with [JL ks; JZ v] => option_map (fun ks' => OFromKeys ks' v) (keys_of ks) | _ => None end
+      else if isd name "getitem" then match args with [k] => option_map OGetItem (key_of k) | _ => None end
+      else if isd name "setitem" then
+        match args with [k; JZ v] => option_map (fun k' => OSetItem k' v) (key_of k) | _ => None end
+      else if isd name "delitem" then match args with [k] => option_map ODelItem (key_of k) | _ => None end
+      else if isd name "contains" then match args with [k] => option_map OContains (key_of k) | _ => None end
+      else if isd name "has_key" then match args with [k] => option_map OHasKey (key_of k) | _ => None end
+      else if isd name "get" then
+        match args with
+        | [k; d] => match key_of k, optz_of d with Some k', Some d' => Some (OGet k' d') | _, _ => None end
+        | _ => None end
+      else if isd name "setdefault" then
+        match args with [k; JZ v] => option_map (fun k' => OSetDefault k' v) (key_of k) | _ => None end
+      else if isd name "pop" then
+        match args with
+        | [k; d] => match key_of k, optz_of d with Some k', Some d' => Some (OPop k' d') | _, _ => None end
+        | _ => None end
+      else if isd name "popitem" then Some OPopItem
+      else if isd name "update" then match args with [JL ps] => option_map OUpdate (kdict_of ps) | _ => None end
+      else if isd name "copy" then Some OCopy
+      else if isd name "or" then match args with [JL ps] => option_map OOr (kdict_of ps) | _ => None end
+      else if isd name "ror" then match args with [JL ps] => option_map ORor (kdict_of ps) | _ => None end
+      else if isd name "ior" then match args with [JL ps] => option_map OIor (kdict_of ps) | _ => None end
+      else if isd name "eq" then match args with [JL ps] => option_map OEq (rawdict_of ps) | _ => None end
+      else if isd name "ne" then match args with [JL ps] => option_map ONe (rawdict_of ps) | _ => None end
+      else if isd name "eq_nonmapping" then Some OEqNonMapping
+      else if isd name "clear" then Some OClear
+      else if isd name "len" then Some OLen
+      else if isd name "keys" then Some OKeys
+      else if isd name "reversed" then Some OReversed
+      else if isd name "move_to_end" then
+        match args with [k; JZ l] => option_map (fun k' => OMoveToEnd k' (negb (l =? 0)%Z)) (key_of k) | _ => None end
+      else None
+  | _ => None
+  end.
+
+Fixpoint ops_of (l : list jv) : option (list (op Z)) :=
+  match l with
+  | [] => Some []
+  | v :: r => match op_of v, ops_of r with
+              | Some o, Some r' => Some (o :: r')
+              | _, _ => None
+              end
+  end.
+
+(* only ASCII keys are decided by the model (str.upper and UTF-8 decoding are not modelled beyond ASCII) *)
+Definition kdict_ascii (ps : list (key * Z)) : bool := forallb (fun kv => key_ascii (fst kv)) ps.
+Definition rawdict_ascii (ps : list (list N * Z)) : bool := forallb (fun kv => all_ascii (fst kv)) ps.
+Definition op_ascii (o : op Z) : bool :=
+  match o with
+  | OInit ps | OUpdate ps | OOr ps | ORor ps | OIor ps => kdict_ascii ps
+  | OFromKeys ks _ => forallb key_ascii ks
+  | OGetItem k | OSetItem k _ | ODelItem k | OContains k | OHasKey k | OGet k _ | OSetDefault k _
+  | OPop k _ | OMoveToEnd k _ => key_ascii k
+  | OEq ps | ONe ps => rawdict_ascii ps
+  | _ => true
+  end.
+
+Definition jdict (d : list (list N * Z)) : jv := JL (map (fun kv : list N * Z => JL [JS (fst kv); JZ (snd kv)]) d).
+
+Definition jout (o : out Z) : jv :=
+  match o with
+  | RNone => jtag "none" []
+  | RVal v => jtag "val" [JZ v]
+  | RBool b => jtag "bool" [jbool b]
+  | RKeyError => jerr "KeyError"
+  | RErr k => jtag "err" [JS k]
+  | RDict d => jtag "dict" [jdict d]
+  | RItem k v => jtag "item" [JS k; JZ v]
+  | RKeys l => jtag "keys" [jstrs l]
+  | RLen n => jtag "len" [jnat n]
+  end.
+
+Fixpoint trace (s : list (list N * Z)) (ops : list (op Z)) : list jv :=
+  match ops with
+  | [] => []
+  | o :: r =>
+      let '(s', res) := step Z.eqb s o in
+      let '(rs, rres) := rstep Z.eqb s o in
+      JL [jout res; jout rres; jbool (op_ok s o); jdict s'; jdict rs] :: trace s' r
+  end.
+
+Definition dispatch_dict (f : list N) (a : jv) : option jv :=
+  if isd f "c17_trace" then
+    Some match a with
+         | JL l => match ops_of l with
+                   | Some ops => if forallb op_ascii ops then JL (trace [] ops) else junsupported
+                   | None => junsupported
+                   end
+         | _ => junsupported
+         end
+  else if isd f "canonsort_keys" then
+    Some match a with
+         | JL [JL ks; JL order] =>
+             match jv_strs ks, jv_strs order with
+             | Some ks', Some order' => jstrs (canonsort_keys ks' order')
+             | _, _ => junsupported
+             end
+         | _ => junsupported
+         end
+  else if isd f "canonsort_items" then
+    Some match a with
+         | JL [JL d; JL order] =>
+             match rawdict_of d, jv_strs order with
+             | Some d', Some order' =>
+                 JL (map (fun kv : list N * option Z =>
+                            JL [JS (fst kv); match snd kv with Some v => JZ v | None => jtag "none" [] end])
+                         (canonsort_items d' order'))
+             | _, _ => junsupported
+             end
+         | _ => junsupported
+         end
+  else None.
